@@ -245,6 +245,8 @@ def run(v):
         D.cmd_family(SEED + 42, 10 if q else 80, depth=3, budget=10**9) + D.alt_family(SEED + 43, 8 if q else 60, budget=10**9) + \
         D.adj_family(SEED + 44, 8 if q else 60, budget=10**9) + D.spell_family(SEED + 45, 7 if q else 28, budget=10**9) + \
         D.amb_family(SEED + 46, 3) + [D.mkdef("empty", D.level([], D.NOTAIL), maxlen=1)] + \
+        [D.mkdef("ambnonascii", D.level([D.sw("a", "-%C3%B1"), D.sw("v", "-v")], D.cmdtail([D.cmd("one", D.level([D.ar("b", "opt", "str", "-%C3%B1")], D.NOTAIL))], optional=True)), maxlen=1),
+         D.mkdef("ambnonascii2", D.level([D.altf("g0", "opt", D.branch(D.rf("x", "one", "-%C3%BC")), D.branch(D.ar("y", "one", "str", "-%C3%BC")))], D.NOTAIL), maxlen=1)] + \
         D.tree_group_family(SEED + 47, 12 if q else 60, budget=10**9) + D.alt_pos_family(SEED + 48, 8 if q else 40, budget=10**9) + \
         D.alt_env_family(SEED + 49, 6 if q else 30, budget=10**9) + D.flagguard_family(SEED + 50, 6 if q else 18) + \
         D.catch_family(SEED + 51, 6 if q else 18) + D.acmd_family(SEED + 52, 9 if q else 45, budget=10**9)
